@@ -78,7 +78,7 @@ func (tx *FnTx) exec(in ssa.Instruction, st *State) *State {
 			// arrays behind escaping pointers live in the element heap (so that slicing them aliases correctly)
 			comp := tx.h.elemComp(at.Elem())
 			ht := tx.h.heapTerm(st, comp)
-			n.heaps[comp.Name] = sapp("store", ht, ref.S, fmt.Sprintf("((as const (Array Int %s)) %s)", comp.VSort, tx.d.zero(at.Elem()).S))
+			n.heaps[comp.Name] = sapp("store", ht, ref.S, tx.d.constArray(comp.VSort, tx.d.zero(at.Elem()).S))
 			return n
 		}
 		// zero-initialise
@@ -133,7 +133,7 @@ func (tx *FnTx) exec(in ssa.Instruction, st *State) *State {
 		n.alloc = "(+ " + obj + " 1)"
 		comp := tx.h.elemComp(et)
 		ht := tx.h.heapTerm(st, comp)
-		zero := fmt.Sprintf("((as const (Array Int %s)) %s)", comp.VSort, tx.d.zero(et).S)
+		zero := tx.d.constArray(comp.VSort, tx.d.zero(et).S)
 		n.heaps[comp.Name] = sapp("store", ht, obj, zero)
 		tx.define(x, fmt.Sprintf("(mk-slice %s 0 %s %s)", obj, l.S, c.S))
 		return n
